@@ -104,13 +104,13 @@ def gen_drift():
     return diff
 
 
-def coq_make(targets, timeout=1500):
+def coq_make(targets, timeout=3000):
     if not targets:
         return 0, "", 0.0
     return sh(["make", "-f", "Makefile.coq", "-j16"] + list(targets), cwd=COQ, timeout=timeout)
 
 
-def coq_props(props_file, timeout=600):
+def coq_props(props_file, timeout=2400):
     """Compile the props file directly so that Print Assumptions output is captured on every run."""
     rc, out, dt = sh(["coqc", "-Q", ".", "TF", "-w",
                       "-notation-overridden,-deprecated-hint-without-locality,-deprecated-instance-without-locality,"
